@@ -13,6 +13,7 @@
 #define _GNU_SOURCE
 #endif
 #include <dirent.h>
+#include <time.h>
 #include <stdatomic.h>
 #include <errno.h>
 #include <fcntl.h>
@@ -270,6 +271,16 @@ static void run_cycle(long id, uint64_t seed)
 			 id, ta.style, tls_inits - i0, tls_deinits - d0);
 	nfd = count_dir("/proc/self/fd");
 	nthr = count_dir("/proc/self/task");
+	if (base_thr >= 0 && nthr > base_thr) {
+		/* a joined thread can stay visible in /proc for a moment after pthread_join returned (the kernel releases the task
+		 * after it cleared the join futex): look again for up to a second before calling it a leak */
+		int tries;
+		for (tries = 0; tries < 200 && nthr > base_thr; tries++) {
+			struct timespec ts = { 0, 5000000 };
+			nanosleep(&ts, NULL);
+			nthr = count_dir("/proc/self/task");
+		}
+	}
 	S.growth_checks++;
 	if (warm < 4) {
 		warm++;
